@@ -276,25 +276,36 @@ def run(chk):
                 hit = True
         chk.ob("R6", vb, join, label, hit, f"join has no `raise {exc}` guarded by a test on {needles}: {label.split(' ->')[0]} is no longer rejected by the verb call")
     # ambiguity / unknown column in on
-    pre = next((n for n in ast.walk(join) if isinstance(n, ast.FunctionDef) and n.name == "_preprocess_on"), None)
-    if pre is None:
-        # the ingress may have been moved to module level: the function handed to map_subtree over `on` that raises ValueError
-        from ..source import reachable_functions as _rf6j
+    # the ingress: the function (nested or module level, handed over directly, through functools.partial or a lambda) that join
+    # applies to the sub-expressions of every on-predicate; its refusals may live in helpers it calls
+    from ..source import reachable_functions as _rf6j
 
-        pre = next((g_ for g_ in _rf6j(vb, join) if g_ is not join and sum(1 for r_ in ast.walk(g_) if isinstance(r_, ast.Raise) and "ValueError" in norm(r_)) >= 2
-                    and any(isinstance(t_, ast.Call) and "ColName" in norm(t_) for t_ in ast.walk(g_))), None)
-    if pre is None:
-        raise AnalysisError("C06/R6: _preprocess_on not found")
-    pr = [norm(r.exc) for r in ast.walk(pre) if isinstance(r, ast.Raise) and r.exc is not None]
-    chk.ob("R6", vb, pre, "on: ambiguous C.name, unknown C.name, foreign column -> ValueError", sum(x.startswith("ValueError") for x in pr) >= 3,
-           "column resolution inside `on` no longer rejects ambiguous / unknown names and foreign columns with ValueError")  # fmt: skip
-    through_ingress = any(
-        isinstance(c_, ast.Call) and isinstance(c_.func, ast.Attribute) and c_.func.attr in ("map_subtree", "map_col_roots") and c_.args
-        and any(isinstance(x_, ast.Name) and x_.id == pre.name for x_ in ast.walk(c_.args[0]))
-        for c_ in ast.walk(join)
-    )
-    chk.ob("R6", vb, join, "every on-predicate passes through the ingress function", through_ingress or "pred.map_subtree(_preprocess_on) for pred in on" in norm(join),
-           "join conditions are not resolved against both tables")  # fmt: skip
+    local_defs = {n.name: n for n in ast.walk(join) if isinstance(n, ast.FunctionDef) and n is not join}
+    mod_defs = {n.name: n for n in vb.tree.body if isinstance(n, ast.FunctionDef)}
+    pre = None
+    for c_ in ast.walk(join):
+        if isinstance(c_, ast.Call) and isinstance(c_.func, ast.Attribute) and c_.func.attr in ("map_subtree", "map_col_roots", "map_col_nodes") and c_.args:
+            for x_ in ast.walk(c_.args[0]):
+                if isinstance(x_, ast.Name) and (x_.id in local_defs or x_.id in mod_defs):
+                    cand = local_defs.get(x_.id) or mod_defs[x_.id]
+                    fam = [cand] + [g_ for g_ in _rf6j(vb, cand) if g_ is not cand and g_ is not join]
+                    if any(isinstance(t_, ast.Call) and "ColName" in norm(t_) for g_ in fam for t_ in ast.walk(g_)):
+                        pre = cand
+                        break
+        if pre is not None:
+            break
+    chk.ob("R6", vb, join, "every on-predicate passes through the ingress function", pre is not None,
+           "join conditions are not resolved against both tables (no function that handles `C.<name>` is mapped over the on-predicates)")  # fmt: skip
+    if pre is not None:
+        fam = [pre] + [g_ for g_ in _rf6j(vb, pre) if g_ is not pre and g_ is not join]
+        seen_r, pr = set(), []
+        for g_ in fam:
+            for r in ast.walk(g_):
+                if isinstance(r, ast.Raise) and r.exc is not None and id(r) not in seen_r:
+                    seen_r.add(id(r))
+                    pr.append(norm(r.exc))
+        chk.ob("R6", vb, pre, "on: ambiguous C.name, unknown C.name, foreign column -> ValueError", sum(x.startswith("ValueError") for x in pr) >= 3,
+               "column resolution inside `on` no longer rejects ambiguous / unknown names and foreign columns with ValueError")  # fmt: skip
 
     # ---- R8 physical-name collisions in the Polars join
     from .. import collide
